@@ -128,11 +128,11 @@ Definition EBPTime (e : t) : Z := extractUtcTime (TimeSeconds e) (TimeFraction e
 Definition SetEBPTime (e : t) (tm : Z) : t := let '(s, f) := insertUtcTime tm in set_Time e s f.
 
 (* ---------------- readers ---------------- *)
-(* Every reader takes g : bool.  g = false is the code as it is in the repaired tree (/root/work/repo-fixed):
-   an optional field that lies outside `data` is read anyway and the index expression panics (F11).
-   g = true is the code with notes/findings/C05-ebp.patch applied: before every optional field
-        if int(index)+n > len(data) || int(index)+n > 0xFF { return nil, gots.ErrInvalidEBPLength }
-   (n = 1, or 8 for the time).  The theorems of C12 are about g = false; C05 relates the two. *)
+(* Every reader takes g : bool.  g = true is the code of /repo HEAD: commit 0e5df3a added a length test before every
+   optional field (`short(n)`: n = 1, or 8 for the time) that returns ErrInvalidEBPLength.  g = false is the code before
+   that commit (only the candidate repairs of the grouping loop and of the time fraction), kept because C05 relates the
+   two (C05_read_ebp_patch_only_adds_error) and the pinned-tree witnesses use it.  The theorems of C12 are stated for every
+   g; the executors' ops `ebp.readg` / `ebp.buildg` / `ebp.hist` use g = true, `ebp.read` / `ebp.build` g = false. *)
 Definition chk (g : bool) (data : bytes) (index n : N) : bool :=
   g && ((len data <? index + n) || (255 <? index + n)).
 
